@@ -7,6 +7,10 @@ import (
 	"testing"
 
 	"github.com/biogo/biogo/concurrent"
+	"github.com/biogo/biogo/io/featio/bed"
+	"github.com/biogo/biogo/io/featio/gff"
+	"github.com/biogo/biogo/io/seqio/fasta"
+	"github.com/biogo/biogo/io/seqio/fastq"
 	"github.com/biogo/biogo/morass"
 
 	"verif/harness/simrt"
@@ -16,6 +20,13 @@ func init() {
 	// install the simulator into the woven packages
 	concurrent.VerifRT = simrt.Global
 	morass.VerifRT = simrt.Global
+	fasta.VerifRT = simrt.Global
+	fastq.VerifRT = simrt.Global
+	bed.VerifRT = simrt.Global
+	gff.VerifRT = simrt.Global
+	for _, f := range []*bool{&concurrent.VerifOn, &morass.VerifOn, &fasta.VerifOn, &fastq.VerifOn, &bed.VerifOn, &gff.VerifOn} {
+		simrt.RegisterFlag(f)
+	}
 }
 
 // execSim runs one case under the simulator. setup registers the clients and
